@@ -534,7 +534,7 @@ pub fn edit_models(rng: &mut Rng, m: &mut Vec<TableDef>, profile: Profile) -> &'
         }
         return "big_step";
     }
-    match rng.below(16) {
+    match rng.below(18) {
         0 => {
             // add table
             let mut pool: Vec<&str> = TABLE_POOL.to_vec();
@@ -746,6 +746,30 @@ pub fn edit_models(rng: &mut Rng, m: &mut Vec<TableDef>, profile: Profile) -> &'
             }
             "noop"
         }
+        16 | 17 => {
+            // remove (or remove and add) labels of some string enum anywhere in the models: the plan gets a
+            // ModifyColumnType whose removed labels `revision` maps to a remaining one (fill_with map)
+            for t in m.iter_mut() {
+                for c in t.columns.iter_mut() {
+                    if let ColumnType::Complex(ComplexColumnType::Enum { values: EnumValues::String(l), .. }) = &mut c.r#type {
+                        if l.len() > 1 {
+                            let i = rng.below(l.len());
+                            let gone = l.remove(i);
+                            if l.len() > 1 && rng.chance(1, 3) {
+                                let j = rng.below(l.len());
+                                l.remove(j);
+                            }
+                            if rng.chance(1, 3) {
+                                l.push(format!("{}_v2", gone));
+                            }
+                            c.default = None;
+                            return "enum_remove_label";
+                        }
+                    }
+                }
+            }
+            "noop"
+        }
         14 => {
             // add FK to another table
             if m.len() < 2 {
@@ -813,7 +837,7 @@ pub fn gen_malformed(rng: &mut Rng) -> Vec<TableDef> {
         return m;
     }
     let ti = rng.below(m.len());
-    match rng.below(10) {
+    match rng.below(14) {
         0 => {
             let d = m[ti].clone();
             m.push(d);
@@ -860,6 +884,29 @@ pub fn gen_malformed(rng: &mut Rng) -> Vec<TableDef> {
             for c in t.columns.iter_mut() {
                 c.primary_key = None;
             }
+        }
+        10 | 11 | 12 | 13 => {
+            // an enum column whose default is not a quoted label: numbers, booleans, floats, the empty string, a bare number
+            // (validate_column checks default.to_sql() of EVERY default kind against the labels / the numeric values)
+            let t = &mut m[ti];
+            let values = if rng.chance(1, 2) {
+                EnumValues::Integer(vec![NumValue { name: "low".into(), value: 0 }, NumValue { name: "high".into(), value: 10 }])
+            } else {
+                EnumValues::String(vec!["true".into(), "0".into(), "x".into()])
+            };
+            let default = match rng.below(7) {
+                0 => DefaultValue::Integer(0),
+                1 => DefaultValue::Integer(10),
+                2 => DefaultValue::Integer(3),
+                3 => DefaultValue::Bool(true),
+                4 => DefaultValue::Float(0.0),
+                5 => DefaultValue::String("".into()),
+                _ => DefaultValue::String("0".into()),
+            };
+            t.columns.push(ColumnDef {
+                default: Some(default),
+                ..col("lvl", ColumnType::Complex(ComplexColumnType::Enum { name: "lvl".into(), values }), rng.chance(1, 2))
+            });
         }
         8 => {
             let t = &mut m[ti];
